@@ -24,11 +24,19 @@ NOTES = ['random.random / random.choice / np.random.randint are patched in the h
          'lambda is compared as an exact fraction: numerator = round(lambda * k^n), checked exact in Python (denominator 0 otherwise)',
          'every boolean oracle script for k=2, r<=1 and every (boolean, choice) script for k=3, r=0 is enumerated (all flags); '
          'every table over the 8 keys of k=2, r=1 is walked (all flags)']
+NOTES.append("bucket 'large/near_target/*' (k=2 r=8: 131072 entries; k=3 r=5: 177147 entries; target j/K away from the current "
+             "lambda, j in -3..3) is ORACLE-ONLY: the table is built by the real random_rule_table and walked by the real "
+             "table_walk_through under a scripted oracle, and every C17 clause is evaluated in Python on the full tables; the Coq "
+             "side sees the constant case CNoModel (check_case = true), because evaluating the association-list model on 10^5 "
+             "entries is too slow. It exists because one entry is a lambda step of ~6e-6..8e-6 there, so float tolerances "
+             "(np.isclose) in the comparisons are visible only at this size")
 ASSUMPTIONS = ['rational draws u and lambda a/b are passed to the code as the doubles a/b; a draw that ties with 1 - lambda is generated '
                'only when both are dyadic (exact in doubles); distinct small fractions differ by far more than an ulp',
                'exception classes of random_rule_table / table_walk_through are not compared (any exception on both sides agrees); '
                'ValueError of table_rule is compared exactly',
-               'table keys are digit strings over 0-9A-Z; cell values given to table_rule are non-negative ints']
+               'table keys are digit strings over 0-9A-Z; cell values given to table_rule are non-negative ints',
+               'large/near_target/* cases are not compared with the model (oracle-only, see notes); the theorems cover them '
+               '(all k, r), the tie to /repo at that size rests on the Python oracle']
 
 DIGITS = '0123456789ABCDEFGHIJKLMNOPQRSTUVWXYZ'
 BIG = (2 ** 20 - 1, 2 ** 20)      # a draw just below 1
@@ -292,7 +300,22 @@ def generate(rng, tier):
     # ---- table_rule
     out.extend(_tr_cases(rng, 250 if tier == 'quick' else 2500))
     rng.shuffle(out)          # spread the expensive cases over the shards
-    return out
+    # ---- tables of more than 10^5 entries, target j entries away from the current lambda: ORACLE-ONLY
+    # (one entry is a lambda step of 1/k^n ~ 6e-6..8e-6: any tolerance in the float comparisons shows here)
+    large = []
+    if tier == 'quick':
+        plan = [(2, 8, False, False, -1), (2, 8, True, True, 1), (2, 8, False, True, -2), (2, 8, True, False, 3),
+                (2, 8, False, False, 0), (2, 8, False, False, 2),
+                (3, 5, False, False, 1), (3, 5, True, True, -1), (3, 5, True, False, 2), (3, 5, False, True, -3),
+                (3, 5, False, False, 0), (3, 5, False, False, -2)]
+    else:
+        plan = [(k, r, sq, iso, j) for k, r in ((2, 8), (3, 5)) for sq, iso in flags for j in (-2, -1, 0, 1, 3)]
+    for i, (k, r, sq, iso, j) in enumerate(plan):
+        # lambda_val 9/10 (lambda ~ 0.9, both directions open), and for a downward walk sometimes 1 (lambda exactly 1)
+        lam = [1, 1] if (j < 0 and i % 4 == 3) else [9, 10]
+        large.append({'kind': 'large/near_target/k%dr%d' % (k, r), 'op': 'large', 'k': k, 'r': r, 'sq': sq, 'iso': iso,
+                      'lam': lam, 'q': rng.randrange(k), 'j': j, 'seed': rng.randrange(10 ** 6)})
+    return out + large
 
 
 # ---------------------------------------------------------------- runner
@@ -312,6 +335,8 @@ def run_impl(c):
         table = {s: v for s, v in c['table']}
         return list(call_impl(lambda: int(cpl.table_rule(nb, table))))
 
+    if op == 'large':
+        return _run_large(c)
     us = [a / b for a, b in c.get('us', [])]
     cs = list(c['cs'])
     pos = {'u': 0, 'c': 0}
@@ -354,6 +379,44 @@ def run_impl(c):
         random.random, random.choice, np.random.randint = saved
 
 
+def _run_large(c):
+    """oracle-only: build a > 10^5-entry table with the real random_rule_table under a scripted oracle, walk it with the
+    real table_walk_through to a target j entries away, evaluate the C17 clauses here (the tables are too large to
+    transport) and return the verdicts."""
+    import random
+    import numpy as np
+    import cellpylib as cpl
+    k, r, q, sq, iso, j = c['k'], c['r'], c['q'], c['sq'], c['iso'], c['j']
+    K = k ** (2 * r + 1)
+    script = random.Random(c['seed'])
+    saved = (random.random, random.choice, np.random.randint)
+
+    def f_choice(seq):
+        if len(seq) == 0:
+            raise IndexError('Cannot choose from an empty sequence')
+        return seq[script.randrange(1 << 30) % len(seq)]
+
+    random.random, random.choice = (lambda: script.randrange(1000) / 1000), f_choice
+    np.random.randint = lambda *a, **kw: np.int32(q)
+    try:
+        def go():
+            t, l, q_rep = cpl.random_rule_table(k, r, lambda_val=c['lam'][0] / c['lam'][1], quiescent_state=q,
+                                                strong_quiescence=sq, isotropic=iso)
+            items0 = [(str(s), int(v)) for s, v in t.items()]
+            rrt_msg = _rrt_clauses(k, r, sq, iso, q, items0, _lam_obs(l, K), int(q_rep))
+            c0 = sum(1 for _, v in items0 if v == q)
+            num = K - c0 + j                       # target = current lambda + j/K, an exact fraction
+            t2, l2 = cpl.table_walk_through(t, num / K, k, r, q, strong_quiescence=sq, isotropic=iso)
+            items1 = [(str(s), int(v)) for s, v in t2.items()]
+            twt_msg = _twt_clauses(k, r, q, sq, iso, items0, items1, _lam_obs(l2, K), Fraction(num, K))
+            c1 = sum(1 for _, v in items1 if v == q)
+            return {'K': K, 'c0': c0, 'c1': c1, 'target': [num, K], 'lam': _lam_obs(l2, K),
+                    'changed': sum(1 for a, b in zip(items0, items1) if a != b), 'rrt_msg': rrt_msg, 'twt_msg': twt_msg}
+        return list(call_impl(go, timeout=300))
+    finally:
+        random.random, random.choice, np.random.randint = saved
+
+
 # ---------------------------------------------------------------- Coq emitter
 def ckey(s):
     return '[' + ';'.join(str(d) for d in enc(s)) + ']%nat'
@@ -381,6 +444,8 @@ def clam(l):
 
 def to_coq(c, obs):
     op = c['op']
+    if op == 'large':
+        return 'CNoModel'
     if op == 'table_rule':
         return '(CTableRule %s %s %s)' % (cnats(c['nb']), ctable(c['table']), cres(obs, cz))
     if op == 'rrt':
@@ -397,6 +462,8 @@ def to_coq(c, obs):
 def nontrivial(c, obs):
     if obs[0] != 'ok':
         return False
+    if c['op'] == 'large':
+        return obs[1]['K'] > 100000
     return c['op'] == 'table_rule' or len(obs[1]['table']) > 0
 
 
@@ -413,8 +480,86 @@ def _iso_holds(d):
     return all(s[::-1] in d and d[s[::-1]] == d[s] for s in d)
 
 
+def _rrt_clauses(k, r, sq, iso, q_in, items, lam_rep, q_rep):
+    """the random_rule_table clauses of C17 on a returned table (ordered items), reported lambda [num, den] and q"""
+    n = 2 * r + 1
+    K = k ** n
+    keys = [s for s, _ in items]
+    d = {s: x for s, x in items}
+    if keys != all_states(k, n):
+        return 'keys are not exactly the k^n neighbourhood strings in order'
+    if any(not (0 <= x <= k - 1) for x in d.values()):
+        return 'a table value is outside 0..k-1'
+    if sq and not _sq_holds(d):
+        return 'strong quiescence violated'
+    if iso and not _iso_holds(d):
+        return 'isotropy violated'
+    if q_rep != q_in:
+        return 'reported quiescent state is not the one used'
+    cnt = sum(1 for x in d.values() if x == q_rep)
+    if lam_rep != [K - cnt, K]:
+        return 'reported lambda %r is not (k^n - #quiescent)/k^n = %d/%d' % (lam_rep, K - cnt, K)
+    return None
+
+
+def _twt_clauses(k, r, q, sq, iso, items0, items1, lam_rep, tgt):
+    """the table_walk_through clauses of C17: table before (items0), table after (items1), reported lambda
+    [num, den], target as a Fraction"""
+    K = k ** (2 * r + 1)
+    d0 = {s: x for s, x in items0}
+    d1 = {s: x for s, x in items1}
+    if sorted(d0) != sorted(d1) or len(items1) != len(items0):
+        return 'walk-through changed the key set'
+    if all(0 <= x <= k - 1 for x in d0.values()) and any(not (0 <= x <= k - 1) for x in d1.values()):
+        return 'walk-through produced a value outside 0..k-1'
+    if sq and _sq_holds(d0) and not _sq_holds(d1):
+        return 'walk-through broke strong quiescence'
+    if iso and _iso_holds(d0) and not _iso_holds(d1):
+        return 'walk-through broke isotropy'
+    c0 = sum(1 for x in d0.values() if x == q)
+    c1 = sum(1 for x in d1.values() if x == q)
+    if lam_rep != [K - c1, K]:
+        return 'reported lambda %r is not the table\'s lambda %d/%d' % (lam_rep, K - c1, K)
+    l0, l1 = Fraction(K - c0, K), Fraction(K - c1, K)
+    step = Fraction(2 if iso else 1, K)
+    if l0 == tgt:
+        return None if d0 == d1 else 'table changed although lambda was already on target'
+    if l0 > tgt:
+        if l1 > l0:
+            return 'lambda moved away from the target (up)'
+        adm = sum(1 for s in d1 if d1[s] != q and not (sq and _uniform(s)))
+        if l1 > tgt and adm:
+            return ('stopped at lambda %d/%d, still above the target %s, although %d admissible entries remain'
+                    % (K - c1, K, tgt, adm))
+        if l1 < tgt and not (l1 + step > tgt):
+            return 'overshot the target by more than one perturbation'
+    else:
+        if l1 < l0:
+            return 'lambda moved away from the target (down)'
+        adm = sum(1 for s in d1 if d1[s] == q and not (sq and _uniform(s)))
+        if l1 < tgt and adm:
+            return ('stopped at lambda %d/%d, still below the target %s, although %d admissible entries remain'
+                    % (K - c1, K, tgt, adm))
+        if l1 > tgt and not (l1 - step < tgt):
+            return 'overshot the target by more than one perturbation'
+    return None
+
+
 def oracle(c, obs):
     op = c['op']
+    if op == 'large':
+        # oracle-only bucket: the clauses were evaluated in run_impl on the full tables (too large to transport)
+        if obs[0] != 'ok':
+            return 'large table: the call raised %s' % obs[1]
+        v = obs[1]
+        if v['rrt_msg']:
+            return 'random_rule_table (k=%d, r=%d): %s' % (c['k'], c['r'], v['rrt_msg'])
+        if v['twt_msg']:
+            return ('table_walk_through on the %d-entry table of random_rule_table(k=%d, r=%d, lambda_val=%d/%d, q=%d, sq=%s, iso=%s) '
+                    'with target lambda %d/%d (current %d/%d): %s'
+                    % (v['K'], c['k'], c['r'], c['lam'][0], c['lam'][1], c['q'], c['sq'], c['iso'],
+                       v['target'][0], v['target'][1], v['K'] - v['c0'], v['K'], v['twt_msg']))
+        return None
     if op == 'table_rule':
         key = ''.join(str(x) for x in c['nb'])
         d = {s: v for s, v in c['table']}
@@ -425,8 +570,6 @@ def oracle(c, obs):
             return 'table_rule: expected ValueError for the absent key %r' % key
         return None
     k, r = c['k'], c['r']
-    n = 2 * r + 1
-    K = k ** n
     if op == 'rrt':
         q_in = c['q'] if c['q'] is not None else c['ri']
         valid = k >= 2 and 0 <= q_in <= k - 1
@@ -435,68 +578,20 @@ def oracle(c, obs):
         if obs[0] != 'ok':
             return 'random_rule_table raised %s on valid arguments' % obs[1]
         v = obs[1]
-        keys = [s for s, _ in v['table']]
-        d = {s: x for s, x in v['table']}
-        if keys != all_states(k, n):
-            return 'keys are not exactly the k^n neighbourhood strings in order'
-        if any(not (0 <= x <= k - 1) for x in d.values()):
-            return 'a table value is outside 0..k-1'
-        if c['sq'] and not _sq_holds(d):
-            return 'strong quiescence violated'
-        if c['iso'] and not _iso_holds(d):
-            return 'isotropy violated'
-        if v['q'] != q_in:
-            return 'reported quiescent state is not the one used'
-        cnt = sum(1 for x in d.values() if x == v['q'])
-        if v['lam'] != [K - cnt, K]:
-            return 'reported lambda %r is not (k^n - #quiescent)/k^n = %d/%d' % (v['lam'], K - cnt, K)
-        return None
+        return _rrt_clauses(k, r, c['sq'], c['iso'], q_in, v['table'], v['lam'], v['q'])
     # table_walk_through
     if k < 2:
         return None
     if obs[0] != 'ok':
         return 'table_walk_through raised %s' % obs[1]
     v = obs[1]
-    q, sq, iso = c['q'], c['sq'], c['iso']
-    d0 = {s: x for s, x in c['table']}
-    d1 = {s: x for s, x in v['table']}
-    if sorted(d0) != sorted(d1) or len(v['table']) != len(c['table']):
-        return 'walk-through changed the key set'
-    if all(0 <= x <= k - 1 for x in d0.values()) and any(not (0 <= x <= k - 1) for x in d1.values()):
-        return 'walk-through produced a value outside 0..k-1'
-    if sq and _sq_holds(d0) and not _sq_holds(d1):
-        return 'walk-through broke strong quiescence'
-    if iso and _iso_holds(d0) and not _iso_holds(d1):
-        return 'walk-through broke isotropy'
-    c0 = sum(1 for x in d0.values() if x == q)
-    c1 = sum(1 for x in d1.values() if x == q)
-    if v['lam'] != [K - c1, K]:
-        return 'reported lambda %r is not the table\'s lambda %d/%d' % (v['lam'], K - c1, K)
-    tgt = Fraction(c['lam'][0], c['lam'][1])
-    l0, l1 = Fraction(K - c0, K), Fraction(K - c1, K)
-    step = Fraction(2 if iso else 1, K)
-    if l0 == tgt:
-        return None if d0 == d1 else 'table changed although lambda was already on target'
-    if l0 > tgt:
-        if l1 > l0:
-            return 'lambda moved away from the target (up)'
-        adm = [s for s in d1 if d1[s] != q and not (sq and _uniform(s))]
-        if l1 > tgt and adm:
-            return 'stopped above the target although admissible entries remain'
-        if l1 < tgt and not (l1 + step > tgt):
-            return 'overshot the target by more than one perturbation'
-    else:
-        if l1 < l0:
-            return 'lambda moved away from the target (down)'
-        adm = [s for s in d1 if d1[s] == q and not (sq and _uniform(s))]
-        if l1 < tgt and adm:
-            return 'stopped below the target although admissible entries remain'
-        if l1 > tgt and not (l1 - step < tgt):
-            return 'overshot the target by more than one perturbation'
-    return None
+    return _twt_clauses(k, r, c['q'], c['sq'], c['iso'], c['table'], v['table'], v['lam'],
+                        Fraction(c['lam'][0], c['lam'][1]))
 
 
 def shrink(c):
+    if c['op'] == 'large':
+        return
     if c['op'] == 'table_rule':
         if len(c['table']) > 1:
             yield dict(c, table=c['table'][1:])
